@@ -102,8 +102,26 @@ pub fn reference_call_main(call_json: &str) -> i32 {
     0
 }
 
+/// The clock-skew shim (tools/clockskew.c, built by ./check into sim/target/clockskew.so).
+fn clockskew_so() -> Option<PathBuf> {
+    let exe = std::env::current_exe().ok()?;
+    let p = exe.parent()?.parent()?.join("clockskew.so");
+    if p.exists() {
+        Some(p)
+    } else {
+        None
+    }
+}
+
 fn call_in_child(exe: &std::path::Path, js: &str, loc: &str, tz: &str) -> Result<(String, Option<String>), String> {
-    match std::process::Command::new(exe)
+    let mut cmd = std::process::Command::new(exe);
+    if loc != "C" {
+        // the skewed environment also has a clock that jumps 5 s ahead at every reading
+        if let Some(so) = clockskew_so() {
+            cmd.env("LD_PRELOAD", so).env("T2N_CLOCK_STEP_MS", "5000");
+        }
+    }
+    match cmd
         .arg("reference-call")
         .arg(js)
         .env("LANG", loc)
@@ -182,6 +200,63 @@ fn pristine_table(calls: &[Call]) -> Result<(Vec<String>, Vec<Option<String>>), 
     Ok((table, stray))
 }
 
+/// Soak history: a handful of calls, each repeated tens of thousands of times in a row, on ONE thread and
+/// ONE set of interpreters (counters wrap, epochs overflow, caches fill). Returns the first
+/// (iteration, call index, got) that disagrees with the pristine result.
+pub fn soak(calls: &[Call], expected: &[String], repeats: usize) -> Option<(usize, usize, String)> {
+    std::thread::scope(|sc| {
+        sc.spawn(|| {
+            let ls = crate::pools::Langs::new();
+            // phases: each call is repeated `repeats` times in a row, so that whatever the library
+            // counts (calls, words, tokens), every value of the count up to `repeats` is met by every
+            // one of the soak calls
+            for (i, c) in calls.iter().enumerate() {
+                for r in 0..repeats {
+                    let got = exec_call(&ls, c, false);
+                    if got != expected[i] {
+                        return Some((r, i, got));
+                    }
+                }
+            }
+            None
+        })
+        .join()
+        .unwrap_or(None)
+    })
+}
+
+fn soak_calls(corpus: &[Call], expected: &[String]) -> (Vec<Call>, Vec<String>) {
+    // one short, crash-free call per (language, kind of operation) met first in the corpus, capped
+    let mut seen = std::collections::BTreeSet::new();
+    let mut c = vec![];
+    let mut e = vec![];
+    for (i, call) in corpus.iter().enumerate() {
+        if call.crash_at != 0 || call.reenter != 0 {
+            continue;
+        }
+        let (kind, size) = match &call.op {
+            Op::T2d { text } => (0, text.len()),
+            Op::Rewrite { text, .. } => (1, text.len()),
+            Op::Find { toks, .. } => (2, toks.len() * 8),
+            Op::FindIter { toks, .. } => (3, toks.len() * 8),
+            Op::RewriteStream { toks, .. } => (4, toks.len() * 8),
+            Op::Raw { words, .. } => (5, words.len() * 8),
+            Op::Annotate { text } => (6, text.len()),
+            Op::AnnotateCustom { words } => (7, words.len() * 8),
+            Op::Lookup { text, .. } => (8, text.len()),
+        };
+        if size > 120 || !seen.insert((call.lang, kind)) {
+            continue;
+        }
+        c.push(call.clone());
+        e.push(expected[i].clone());
+        if c.len() >= 40 {
+            break;
+        }
+    }
+    (c, e)
+}
+
 fn single_call_case(call: &Call, expected: &str) -> Case {
     Case { calls: vec![call.clone()], expected: vec![expected.to_string()], threads: vec![vec![0]], policy: 0, sched_seed: 0, trace: None }
 }
@@ -213,6 +288,21 @@ pub fn replay_c14(doc: &Value) -> i32 {
             return 2;
         }
     };
+    if let Some(sk) = doc.get("soak") {
+        let c: Vec<Call> = serde_json::from_value(sk["calls"].clone()).unwrap_or_default();
+        let e: Vec<String> = serde_json::from_value(sk["expected"].clone()).unwrap_or_default();
+        let n = sk["repeats"].as_u64().unwrap_or(0) as usize;
+        return match soak(&c, &e, n) {
+            Some((r, i, got)) => flush_and_code(
+                &[
+                    format!("REPLAY property=C14 oracle=H1-history-independence round {r} call {i}: got {got:?}, expected {:?}", e[i]),
+                    "REPLAY-RESULT violation-reproduced oracle=H1-history-independence".to_string(),
+                ],
+                1,
+            ),
+            None => flush_and_code(&["REPLAY-RESULT no-violation property=C14".to_string()], 0),
+        };
+    }
     if let Some(envs) = doc.get("envs").and_then(|e| e.as_array()) {
         // environment-independence replay: the single call in two pristine processes
         let exe = match std::env::current_exe() {
@@ -315,6 +405,14 @@ pub fn run_c14(cfg: &BatchCfg, corpus_size: usize, pristine_sample: usize) -> i3
         }
         return fail(&lines, if violations > 0 { 1 } else { 2 });
     }
+    if let Some(i) = expected.iter().position(|e| e.starts_with(REENTRANT_MARK)) {
+        let detail = format!(
+            "call {}: a library call made from inside a caller-supplied interpreter callback (same thread, nested) panicked or gave a different result than the same call on its own",
+            serde_json::to_string(&calls[i]).unwrap_or_default()
+        );
+        let ok = report_violation(&mut lines, cfg.seed, 500_000 + i as u64, &single_call_case(&calls[i], &expected[i]), "H5-reentrancy", &detail);
+        return fail(&lines, if ok { 1 } else { 2 });
+    }
     // second history: all calls in ONE other process (fresh interpreters and a fresh thread per
     // call, reverse order); it must agree with the pristine table
     match child_reference(&calls, "ref") {
@@ -402,8 +500,27 @@ pub fn run_c14(cfg: &BatchCfg, corpus_size: usize, pristine_sample: usize) -> i3
         direct_mismatch = probe.execute(&full_history, &mut st).violation;
     }
 
+    // (b'') soak: up to 40 short calls, 66 000 rounds each, one thread, one interpreter set
+    let (mut soak_c, mut soak_e) = soak_calls(&calls, &expected);
+    // plus the ambiguity-annotation paths (English "o", French "neuf"), which keep per-call scratch state
+    for (lang, text) in [(1usize, "o nine sixty o six twelve twenty-one and o"), (3, "le logement neuf, un neuf virgule neuf et le vingt neuf")] {
+        for concrete in [false, true] {
+            let c = Call { lang, concrete, op: Op::Rewrite { text: text.to_string(), thr: "0".into() }, crash_at: 0, reenter: 0 };
+            if let Ok(exe) = std::env::current_exe() {
+                if let Ok((r, None)) = call_in_child(&exe, &serde_json::to_string(&c).unwrap_or_default(), "C", "UTC") {
+                    soak_c.push(c);
+                    soak_e.push(r);
+                }
+            }
+        }
+    }
+    let soak_repeats = 66_000usize;
+    let mut soak_hit: Option<(usize, usize, String)> = None;
+    if silence_hit.is_none() && direct_mismatch.is_none() {
+        soak_hit = soak(&soak_c, &soak_e, soak_repeats);
+    }
     let check = C14 { corpus: Corpus { calls: calls.clone(), expected: expected.clone() } };
-    let outcome = if silence_hit.is_none() && direct_mismatch.is_none() { Some(run_batch(&check, cfg)) } else { None };
+    let outcome = if soak_hit.is_some() { None } else if silence_hit.is_none() && direct_mismatch.is_none() { Some(run_batch(&check, cfg)) } else { None };
     let captured = cap.stop();
     // ---- capture ends
 
@@ -432,10 +549,40 @@ pub fn run_c14(cfg: &BatchCfg, corpus_size: usize, pristine_sample: usize) -> i3
         }
     }
 
+    if let Some((r, i, got)) = &soak_hit {
+        let hi = soak_repeats;
+        let detail = format!(
+            "soak on one thread and one set of interpreters ({} short calls, each repeated {} times in a row): repetition {} of call #{} {} gives {:?}, alone in a pristine process it gives {:?}",
+            soak_c.len(),
+            hi,
+            r,
+            i,
+            serde_json::to_string(&soak_c[*i]).unwrap_or_default(),
+            got,
+            soak_e[*i]
+        );
+        let path = replay_dir().join(format!("C14-{}-soak.json", cfg.seed));
+        let doc = json!({"property":"C14","oracle":"H1-history-independence","detail":detail,
+            "soak": {"calls": soak_c, "expected": soak_e, "repeats": hi},
+            "case": single_call_case(&soak_c[*i], &soak_e[*i])});
+        let _ = std::fs::write(&path, serde_json::to_string_pretty(&doc).unwrap());
+        match confirm_in_child(&path, "H1-history-independence") {
+            Ok(()) => {
+                lines.push(format!("violation detail: oracle=H1-history-independence {detail}"));
+                lines.push(format!("VIOLATION property=C14 replay={}", path.display()));
+                violations += 1;
+            }
+            Err(e) => {
+                lines.push(format!("HARNESS-ERROR property=C14 soak mismatch did not reproduce in a fresh process: {e}"));
+                return fail(&lines, 2);
+            }
+        }
+    }
+
     let mut extra = json!({
         "layers": {
             "a_send_sync_probe": "built and passed before this binary ran (./check C14 runs it first)",
-            "b_history_simulation": "runs with 1 simulated thread + one forward pass over the whole corpus",
+            "b_history_simulation": "runs with 1 simulated thread + one forward pass over the whole corpus + soak (up to 44 short calls, each repeated 66000 times in a row on one thread)",
             "c_schedule_simulation": "runs with 2-4 simulated threads under the deterministic scheduler",
             "d_miri": if cfg.tier == "thorough" { "run by ./check after this binary (see miri section)" } else { "thorough tier only" },
             "e_silence": "fd 1 and fd 2 captured for the silence scan, the forward pass and the whole batch",
